@@ -56,6 +56,13 @@ func runC05Lattice(r *simrt.Run, tier Tier) Outcome {
 				res = result{stage: "dump", err: err}
 				return
 			}
+			if strings.HasPrefix(text, "Package pk!") {
+				un := map[string]bool{}
+				for k := range facts {
+					un[strings.TrimPrefix(k, "pk.")] = true
+				}
+				facts = un
+			}
 			res = result{facts: facts}
 		})
 		if panicked {
@@ -88,7 +95,12 @@ func runC05Lattice(r *simrt.Run, tier Tier) Outcome {
 			clauses = sh
 		}
 		text := strings.Join(decls, "\n") + "\n" + latticeMinDecl + strings.Join(clauses, "\n") + "\n"
-		desc := fmt.Sprintf("variant %d %s base-facts-in-program=%v", k, cfg, inline)
+		// the program inside a package (then with its base facts in the text)
+		pkg := k > 0 && inline && r.OneIn(3, "c05l.package")
+		if pkg {
+			text = "Package pk!\n" + text
+		}
+		desc := fmt.Sprintf("variant %d %s base-facts-in-program=%v package=%v", k, cfg, inline, pkg)
 		shown := text
 		if !inline {
 			shown += "facts in the store before evaluation:\n  " + strings.Join(baseText, "\n  ") + "\n"
